@@ -10,9 +10,11 @@ EVAL_TECH = "TLA+ spec (YaeTypes/YaeValues/YaeEval) model-checked with TLC over 
 CLAIMS = {
  "C01": ("model_checking", "Preservation is an invariant of the specification (Gen_Eval: every state one program with the spec's own check + evaluation) over the object-layout, lazy, optional and 1-/2-operator universes; every enumerated program runs through the real pipeline on the four back ends and TLC judges the deep projection of each result (dynamic type of every nested component, no nil component) against the observed inferred type.", EVAL_TECH),
  "C02": ("model_checking", "Progress (never stuck; failures only index/key/mod0/regex and exactly when the semantics says) is an invariant of the specification and is judged by TLC on the recorded outcome class of every back end for edge indices, keys, moduli, patterns, guarded operations and the size families crossing the VM's 42-slot stack and 8-bit operand ranges.", EVAL_TECH),
+ "C03": ("model_checking", "VM-refines-big-step (value, failure, host-call log) is an invariant of the specification's compilation scheme + machine over the program universes; on the code, every program is compiled by the real compiler and run with the per-instruction step hook: TLC replays the recorded instruction trace of the switch loop on the specification's machine over the implementation's own bytecode, and compares the outcomes and logs of all four back ends (switch VM, call-threaded VM, closure, interpreter) with the specification and each other.", "TLA+ spec of the compilation scheme and VM (YaeVM) + big-step semantics (YaeEval); TLC invariants; trace validation of recorded VM step traces and of four-back-end observations"),
  "C04": ("model_checking", "Every operator and built-in applied to argument pools (dyadic numbers, tolerance-edge offsets, exact big integers across 2^53 and 2^63, inf/nan, escaped and non-ASCII strings, times, lists and maps with duplicates): the specification's exact value is compared by TLC, element by element, with the value observed on each back end.", EVAL_TECH),
  "C05": ("model_checking", "All one-operator programs (well- and ill-typed) over the vocabulary, plus the focused universes: TLC compares observed acceptance (compile time, on every back end) and inferred type with the specification's transcription of the checker (exact mono overload first, else first registered poly overload that instantiates with a concrete result).", EVAL_TECH),
  "C06": ("model_checking", "Tracing host functions in every operand position and failing sub-expressions in every unselected position: TLC compares the ordered host-call log and outcome observed on each back end with the specification's (strict positions left to right once, lazy callees force only what they select).", EVAL_TECH),
+ "C11": ("model_checking", "For every program of the universes the bytecode the REAL compiler emitted (bytes, constant pool, thunk bodies, exported by the verif hook) is verified structurally by the specification's verifier (complete decoding, operand kinds and ranges, forward jumps to instruction boundaries, one non-negative stack depth per offset, depth one at the final return), and the recorded run is checked never to execute an offset twice within one activation; the same verifier holds of the specification's own compilation scheme as a TLC invariant.", "TLA+ bytecode verifier (YaeVM!VerifyBC) applied by TLC to each implementation-emitted bytecode (per-program translation validation) + TLC invariant on the specified compilation scheme"),
  "C16": ("model_checking", "Every built-in / operator / access with an optional in every argument position: TLC compares observed acceptance with the specification's checker (only get(optional, default) and bare type variables admit it), and accepted programs evaluate without failure.", EVAL_TECH),
  "C17": ("model_checking", "TLC model-checks the type-equality and unification laws on the specification's transcription of types/{equals,unify}.go over all depth<=1 type pairs and pattern/ground tuples; every enumerated pair plus seeded deeper pairs (incl. shared sub-term pointers) is executed through types.Equals/types.Unify, and TLC judges each recorded observation (result, substitution, laws on the observed answers).", "TLA+ spec (YaeTypes) + TLC exhaustive enumeration + trace validation of recorded observations"),
 }
